@@ -358,8 +358,10 @@ def run(ctx):
     lines = ["%s A %s" % ("2,1,0,2," + "d" * 31, mk(n).encode().hex()) for _, mk, n in spec]
     for (name, mk, n), a, l in zip(spec, stages.run_harness(ctx, "tree", lines, flavour="ndebug", per_case_s=6), lines):
         why = classify("speculative-nest", "A", a)
-        if why and a.startswith("HANG"):
-            ctx.report("exponential-backtracking:" + name, "%r nested %d times (%d bytes): SyntaxTree::parseText did not return within 6 s (the time triples with every level)" % (mk(1), n, len(mk(n))),
+        if why and a.startswith(("HANG", "CRASH")):
+            # time and memory both grow exponentially (the nodes of abandoned readings stay in the pool): whichever limit is met first - 6 s or the
+            # harness's 4 GB address-space limit (then an allocation fails) - it is the same recorded finding for this input
+            ctx.report("exponential-backtracking:" + name, "%r nested %d times (%d bytes): SyntaxTree::parseText did not return within 6 s / 4 GB (time and memory triple with every level)" % (mk(1), n, len(mk(n))),
                        {"component": "tree", "flavour": "ndebug", "case": l})
         elif why:
             failures.append(("ndebug", "speculative-nest:%s x %d" % (name, n), "A", "2,1,0,2," + "d" * 31, mk(n).encode(), why))
